@@ -27,7 +27,7 @@ LEVEL = 'exploration'
 N = {'quick': 36000, 'thorough': 900000}
 RULE = ('(law) raw pairs with differences drawn around the tolerance x (p,g); (ops) operand tuples through Guarded(p,0) and Fixed(p); '
         '(count0) wigm/meek/warren counts under guarded guard=0 vs fixed; (countq) guarded g>=1 vs rational counts whose own '
-        'maxDiff/minDiff statistics are far from the tolerance; non-trivial = |difference| within 2 of the tolerance (law), inexact '
+        'maxDiff/minDiff statistics are far from the tolerance (a quarter of them near-tie elections at precision 1-3); non-trivial = |difference| within 2 of the tolerance (law), inexact '
         'result (ops), a count with a fractional transfer or >= 2 Meek iterations (counts)')
 TECHNIQUE = 'property-based testing: trichotomy/tolerance law on generated pairs; differential Guarded(g=0) vs Fixed; differential guarded vs rational counts'
 LEVEL_TEXT = 'generated operand pairs (exhaustive for guard <= 2 in the thorough tier) and two differential oracles over generated counts'
